@@ -555,12 +555,19 @@ class XPathToken(Token[ta.XPathTokenType]):
             left_values = [v for x in left_items for v in self._items[0].atomize_item(x)]
             right_values = [v for x in right_items for v in self._items[1].atomize_item(x)]
 
-            # Converts to float for lesser-greater operators (3.)
+            # Converts to numbers for lesser-greater operators (3.): NaN if not a number
             if self.symbol in ('<', '<=', '>', '>='):
-                yield from product(map(float, left_values), map(float, right_values))
+                yield from product(map(self.number_value, left_values),
+                                   map(self.number_value, right_values))
                 return
             elif self.parser.version == '1.0':
-                yield from product(left_values, right_values)
+                for op1, op2 in product(left_values, right_values):
+                    if isinstance(op1, (int, float, Decimal)) or \
+                            isinstance(op2, (int, float, Decimal)):
+                        # at least one number: both are converted with number()
+                        yield self.number_value(op1), self.number_value(op2)
+                    else:
+                        yield op1, op2
                 return
         else:
             left_values = self._items[0].atomization(context)
